@@ -120,3 +120,19 @@ var vfUserKeyNames = []string{
 	"user_p256_1", "user_p256_2", "user_p256_3", "user_p384_1", "user_p384_2", "user_p521_1",
 	"user_ed25519_1", "user_ed25519_2", "user_ed25519_3",
 }
+
+var vfCertCache = map[string]*x509.Certificate{}
+
+func vfCertFixture(name string) *x509.Certificate {
+	vfKeyCacheMu.Lock()
+	defer vfKeyCacheMu.Unlock()
+	if c, ok := vfCertCache[name]; ok {
+		return c
+	}
+	c, err := x509.ParseCertificate(vfPEMDer(vfFixture(name)))
+	if err != nil {
+		panic(err)
+	}
+	vfCertCache[name] = c
+	return c
+}
